@@ -125,20 +125,36 @@ func checkC15(c *Ctx) {
 		})
 		c.check(found, "R4", "heartbeat loop consults IsPermanentError", firstInstr(rf), "%v", found)
 	}
-	if rb := m.libFunc("RetryWithBackoff"); rb != nil {
-		found := false
-		eachInstr(rb, func(in ssa.Instruction) {
-			if ifi, ok := in.(*ssa.If); ok {
-				if l := m.litOf(ifi.Cond, true, ifi); l.S.Op == "call" && l.S.Name == funcName(perm) {
-					edge := map[bool]int{true: 0, false: 1}[l.Truth]
-					blk := in.Block().Succs[edge]
-					if _, ok := blk.Instrs[len(blk.Instrs)-1].(*ssa.Return); ok {
-						found = true
-					}
+	if rb, invs := m.retryInvocations(); rb != nil {
+		n := 0
+		for _, uf := range m.unitFns(rb) {
+			eachInstr(uf, func(in ssa.Instruction) {
+				call, ok := in.(*ssa.Call)
+				if !ok || call.Call.StaticCallee() != perm {
+					return
 				}
-			}
-		})
-		c.check(found, "R4", "RetryWithBackoff stops on a permanent error", firstInstr(rb), "%v", found)
+				n++
+				var hit ssa.Instruction
+				first := true
+				m.exploreAssuming(call, map[ssa.Value]bool{ssa.Value(call): true}, 0, func(x ssa.Instruction, flag int) (int, bool) {
+					if first {
+						first = false
+						return flag, false
+					}
+					for _, iv := range invs {
+						if x == ssa.Instruction(iv) {
+							hit = x
+							return flag, true
+						}
+					}
+					return flag, false
+				}, nil)
+				c.check(hit == nil, "R4", "RetryWithBackoff stops on a permanent error", call, "with IsPermanentError(err) == true another invocation of the operation is reachable: %v", hit != nil)
+			})
+		}
+		if n == 0 {
+			c.viol("R4", "RetryWithBackoff stops on a permanent error", firstInstr(rb), "RetryWithBackoff never consults IsPermanentError")
+		}
 	}
 }
 
